@@ -150,4 +150,84 @@ Judge_ternary(e) ==
                 IN {"companion_is_not_kleene_x:" \o c.names[i] : i \in {j \in 1..c.n : XOf(c.names[j]) # vk[j].x}}
                    \cup {"value_differs_from_kleene:" \o c.names[i] : i \in {j \in 1..c.n :
                             vt[Idx(t, c.names[j])].one \ vk[j].x # vk[j].one}})
+
+(* C09  unroll(c, n, state_io): e.c, e.n, e.sio (seq of <<state output k, state input v>>), e.uc,
+   e.iomap (seq of <<io name of c, seq of node names of uc, one per step>>) *)
+MapOf(e, nm) == e.iomap[CHOOSE j \in 1..Len(e.iomap) : e.iomap[j][1] = nm][2]
+HasMap(e, nm) == \E j \in 1..Len(e.iomap) : e.iomap[j][1] = nm
+StateIn(e)  == {e.sio[j][2] : j \in 1..Len(e.sio)}
+KOfV(e, v)  == e.sio[CHOOSE j \in 1..Len(e.sio) : e.sio[j][2] = v][1]
+\* iterated execution: values of all nodes of c at steps 0..n-1, inputs bound to the unrolled circuit's nodes via iomap
+RECURSIVE RunSteps(_,_,_,_,_,_)
+RunSteps(e, c, U, vuc, t, acc) ==
+  IF t >= e.n THEN acc
+  ELSE LET fv == [i \in FreeNodes(c) |->
+                    LET nm == c.names[i] IN
+                    IF nm \in StateIn(e) /\ t > 0 THEN acc[t][Idx(c, KOfV(e, nm))]
+                    ELSE vuc[Idx(e.uc, MapOf(e, nm)[t + 1])]]
+       IN RunSteps(e, c, U, vuc, t + 1, Append(acc, Eval(c, U, fv)))
+Judge_unroll(e) ==
+  IF e.exc # "" THEN Raised(e) ELSE
+  LET c == e.c  uc == e.uc
+      ioNames == InputNames(c) \cup OutputNames(c)
+      wantInputs == {MapOf(e, nm)[1] : nm \in StateIn(e)}
+                    \cup UNION {{MapOf(e, nm)[t] : t \in 1..e.n} : nm \in InputNames(c) \ StateIn(e)}
+      mapOK == /\ \A nm \in ioNames : HasMap(e, nm) /\ Len(MapOf(e, nm)) = e.n
+                                         /\ \A t \in 1..e.n : HasName(uc, MapOf(e, nm)[t])
+  IN Machinery(c) \cup Machinery(uc)
+     \cup (IF mapOK THEN {} ELSE {"io_map_incomplete"})
+     \cup (IF ~mapOK THEN {} ELSE
+           (IF InputNames(uc) = wantInputs THEN {} ELSE {"inputs_of_unrolled_circuit"})
+           \cup (IF ~(c.acyc /\ uc.acyc) \/ NFree(uc) > MaxBits \/ FreeNames(c) # InputNames(c) THEN {"MACHINERY:not_evaluable"}
+                 ELSE LET U == StdU(uc)
+                          vuc == EvalStd(uc)
+                          run == RunSteps(e, c, U, vuc, 0, <<>>)
+                      IN UNION {{"value_at_step:" \o c.names[i] \o "@" \o ToString(t - 1) :
+                                       t \in {s \in 1..e.n : vuc[Idx(uc, MapOf(e, c.names[i])[s])] # run[s][i]}} : i \in Outputs(c)}))
+
+(* C09  sequential_unroll(c, n, d, q, ignore_pins, add_flop_outputs, initial_values, remove_unloaded):
+   e.c (with flop blackboxes), e.n, e.d, e.q, e.add_flop_outputs, e.init (seq of <<instance, "free"|"0"|"1"|"x">>),
+   e.uc, e.iomap (keys: primary io names and <inst>_<d>, <inst>_<q>) *)
+InitOf(e, inst) == e.init[CHOOSE j \in 1..Len(e.init) : e.init[j][1] = inst][2]
+RECURSIVE SeqSteps(_,_,_,_,_,_)
+SeqSteps(e, c, U, vuc, t, acc) ==
+  IF t >= e.n THEN acc
+  ELSE LET fv == [i \in FreeNodes(c) |->
+                    LET nm == c.names[i] IN
+                    IF c.ty[i] = "bb_output" THEN
+                       LET inst == InstOf(nm) IN
+                       IF t > 0 THEN acc[t][Idx(c, Pin(inst, e.d))]
+                       ELSE (CASE InitOf(e, inst) = "0" -> K0 [] InitOf(e, inst) = "1" -> K1(U) [] InitOf(e, inst) = "x" -> KX(U)
+                               [] OTHER -> vuc[Idx(e.uc, MapOf(e, Pfx(inst, e.q))[1])])
+                    ELSE IF HasMap(e, nm) THEN vuc[Idx(e.uc, MapOf(e, nm)[t + 1])] ELSE K0]
+       IN SeqSteps(e, c, U, vuc, t + 1, Append(acc, Eval(c, U, fv)))
+Judge_sequential_unroll(e) ==
+  IF e.exc # "" THEN Raised(e) ELSE
+  LET c == e.c  uc == e.uc
+      insts == BBInsts(c)
+      primOut == {i \in Outputs(c) : c.ty[i] \notin BBPins}
+      primIn  == {i \in Inputs(c) : HasMap(e, c.names[i])}
+      mapOK == /\ \A i \in primOut : HasMap(e, c.names[i])
+               /\ \A b \in insts : HasMap(e, Pfx(b, e.d)) /\ HasMap(e, Pfx(b, e.q))
+               /\ \A j \in 1..Len(e.iomap) : Len(e.iomap[j][2]) = e.n /\ \A t \in 1..e.n : HasName(uc, e.iomap[j][2][t])
+      wantOut == UNION {{MapOf(e, c.names[i])[t] : t \in 1..e.n} : i \in primOut}
+                 \cup (IF e.add_flop_outputs THEN UNION {{MapOf(e, Pfx(b, e.d))[t] : t \in 1..e.n} : b \in insts} ELSE {})
+      wantIn  == UNION {{MapOf(e, c.names[i])[t] : t \in 1..e.n} : i \in primIn}
+                 \cup {MapOf(e, Pfx(b, e.q))[1] : b \in {x \in insts : InitOf(e, x) = "free"}}
+  IN Machinery(c) \cup Machinery(uc)
+     \cup {"primary_output_dropped:" \o c.names[i] : i \in {j \in primOut : ~HasMap(e, c.names[j])}}
+     \cup (IF ~mapOK THEN {"io_map_incomplete"} ELSE
+           (IF OutputNames(uc) = wantOut THEN {} ELSE {"outputs_of_unrolled_circuit"})
+           \cup (IF InputNames(uc) = wantIn THEN {} ELSE {"inputs_of_unrolled_circuit"})
+           \cup {"loaded_input_dropped:" \o c.names[i] : i \in {j \in Inputs(c) : ~HasMap(e, c.names[j]) /\ FoSet(c, j) # {}
+                                                                      /\ \E k \in FoSet(c, j) : c.ty[k] # "bb_input"}}
+           \cup (IF ~(c.acyc /\ uc.acyc) \/ NFree(uc) > MaxBits THEN {"MACHINERY:not_evaluable"}
+                 ELSE LET U == StdU(uc)
+                          vuc == EvalStd(uc)
+                          run == SeqSteps(e, c, U, vuc, 0, <<>>)
+                      IN UNION {{"value_at_step:" \o c.names[i] \o "@" \o ToString(t - 1) :
+                                   t \in {s \in 1..e.n : vuc[Idx(uc, MapOf(e, c.names[i])[s])] # run[s][i]}} : i \in primOut}
+                         \cup (IF ~e.add_flop_outputs THEN {} ELSE
+                               UNION {{"flop_data_at_step:" \o b \o "@" \o ToString(t - 1) :
+                                   t \in {s \in 1..e.n : vuc[Idx(uc, MapOf(e, Pfx(b, e.d))[s])] # run[s][Idx(c, Pin(b, e.d))]}} : b \in insts})))
 =============================================================================
